@@ -267,7 +267,15 @@ def main():
             if not panic_is_violation:
                 continue
         seen_ids = set()
-        for o in r["obligations"] or []:
+        # instances whose scenario a harness marked as replay-friendly (e.g. a payer rich enough for the real
+        # price where the symbolic run used a price cut) are tried first
+        prefer = spec.get("replay_prefer", {"payer.rich": True})
+        def _pref(o):
+            sc = o.get("Scenario") or {}
+            nd = sc.get("nondet") or {}
+            return 0 if all(nd.get(k) == v for k, v in prefer.items()) else 1
+        obs_sorted = sorted(r["obligations"] or [], key=lambda o: (0 if o["Verdict"] != "violated" else 1, _pref(o)))
+        for o in obs_sorted:
             obligations += 1
             if o["Verdict"] == "discharged":
                 discharged += 1
